@@ -509,7 +509,7 @@ def db_lookup(chk, prog):
                     ok = any((stored(b, a) and pres(b, r)) or (stored(b, r) and pres(b, a)) for a, r in eqs)
                     chk.ob("R8.db_lookup", base + m, f"{m}: an entry matches only if its stored {what} == the presented {what} (whole-string equality)", ok,
                            f"the loop is left as 'found' under {[(panics.short_desc(a), panics.short_desc(r)) for a, r in eqs]}", where=b.where(ex))
-    chk.floor("Vec<User> lookup predicates", n, 4)
+    chk.floor("Vec<User> lookup predicates", n, 3)
     rb = prog.bodies.get(base + "remove_user")
     if rb:
         for blk, t in rb.calls_to(r"Vec::<T, A>::retain$"):
